@@ -35,6 +35,18 @@ unfolding from the root + number of objects per class, i.e. the same sharing); t
 `decode (encode s)` reproduces the model's crash-point state ("codec_inverse"), and the implementation's own
 `context_dict` (ids renumbered into the model's layout, scalars tagged: `_canon_impl`) is decoded into a model
 state from which the MODEL run is continued and compared with the implementation's resumed run c.
+THE TEXT LAYER (drv_C09 "json"): `AcnModel/JsonText.lean` models CPython's `json.dumps` / `json.loads` (the theorems
+`json_string_roundtrip`, `json_int_roundtrip`, `json_value_roundtrip`, `scalar_codec_lawful` are about that model).  On
+every case the WHOLE document that `to_json()` wrote at the crash point is parsed and rendered again by the model and
+compared byte for byte with `json.dumps(json.loads(text))`; every id of the scenario and the case's probe strings /
+ints are rendered by the model, compared with `json.dumps`, and parsed back.
+EVERY JSON run additionally checks, after the first load AND after a second save/load (through the file-like entry
+points `to_json(buf)` / `from_json(buf)`): sharing for every occupied station, the live VALUES of every serialised
+attribute against the crashed simulator's (`_live_state`), integer fields still integers (`_type_diffs`), and the
+document against the first one with types compared exactly (`_bijection`: references are found by SCHEMA, so a
+session id that equals a registry id is a leaf); run d is resumed from the twice-loaded simulator.
+The EXOTIC stream / corpus: ids that need escaping or look like something else, numpy scalars as EV fields, inf /
+nan, session ids that are registry ids, several stations occupied at the crash (see RULE).
 For the real algorithms the model is C07's composition (drv_C09 "sorted": `WireSortedRd` — the modelled sorted algorithm
 inside the simulator model, the SimpleRampdown object threaded through `SimSortedRd.runSt`), run UNINTERRUPTED and
 compared with a, b, c2, c3 (and c, d when the algorithm object the run was resumed with carries the same state).
@@ -1267,6 +1279,81 @@ def _type_diffs(sim):
     return bad[:6]
 
 
+def _num(x):
+    if x is None:
+        return None
+    if isinstance(x, (bool, np.bool_)):
+        return bool(x)
+    if isinstance(x, (int, np.integer)):
+        return int(x)
+    if isinstance(x, (float, np.floating)):
+        return I.enc(float(x))
+    if isinstance(x, np.ndarray):
+        return [_num(y) for y in x.tolist()]
+    if isinstance(x, (list, tuple)):
+        return [_num(y) for y in x]
+    return x
+
+
+def _live_state(sim, amap=None):
+    """every value the serialiser is responsible for, read off the LIVE objects (not off the document): a value
+    that `_to_dict` writes wrongly, `NpEncoder` converts lossily or `_from_dict` restores wrongly shows here even
+    when nothing that is simulated afterwards depends on it.  ints exactly, floats exactly (a double survives
+    `repr` / `float`), numpy scalars by value."""
+    amap = amap or {}
+    net = sim.network
+    out = {"sim": [_num(sim.period), _num(sim.peak), _num(sim.max_recompute), _num(sim._iteration), _num(sim._resolve),
+                   _num(sim._last_schedule_update), _num(sim.pilot_signals), _num(sim.charging_rates),
+                   None if sim.schedule_history is None else sorted([int(t), sorted([st, _num(v)] for st, v in sc.items())]
+                                                                  for t, sc in sim.schedule_history.items())],
+           "net": [_num(net.violation_tolerance), _num(net.relative_tolerance), _num(net.constraint_matrix), _num(net.magnitudes),
+                   _num(net._voltages), _num(net._phase_angles), list(net.constraint_index), list(net.station_ids),
+                   _num(net.max_pilot_signals), _num(net.min_pilot_signals), _num(net.is_continuous),
+                   [_num(a_) for a_ in net.allowable_rates]],
+           "queue": sorted([_num(ts), e.event_type, _num(e.timestamp), _num(e.precedence),
+                            amap.get(e.ev.session_id, e.ev.session_id) if hasattr(e, "ev") else ""] for ts, e in sim.event_queue.queue),
+           "past": [[e.event_type, _num(e.timestamp), _num(e.precedence),
+                     amap.get(e.ev.session_id, e.ev.session_id) if hasattr(e, "ev") else ""] for e in sim.event_history],
+           "evse": {}, "ev": {}}
+    for st, e in net._EVSEs.items():
+        out["evse"][st] = [type(e).__name__, _num(e._current_pilot), _num(e.is_continuous), _num(getattr(e, "_max_rate", None)),
+                           _num(getattr(e, "_min_rate", None)), _num(getattr(e, "_deadband_end", None)),
+                           _num(getattr(e, "allowable_rates", None)) if not isinstance(getattr(type(e), "allowable_rates", None), property) else _num(e.allowable_rates),
+                           None if e.ev is None else amap.get(e.ev.session_id, e.ev.session_id)]
+    for _, ev in _all_evs(sim):
+        sid = amap.get(ev.session_id, ev.session_id)
+        if sid in out["ev"]:
+            continue
+        b = ev._battery
+        out["ev"][sid] = [ev._station_id, _num(ev._arrival), _num(ev._departure), _num(ev._estimated_departure),
+                          _num(ev._requested_energy), _num(ev._energy_delivered), _num(ev._current_charging_rate),
+                          type(b).__name__, _num(b._capacity), _num(b._init_charge), _num(b._max_power),
+                          _num(b._current_charge), _num(b._current_charging_power)] + \
+            ([_num(b._noise_level), _num(b._transition_soc), b.charge_calculation] if hasattr(b, "_transition_soc") else [])
+    return out
+
+
+def _state_diffs(a, b, tag):
+    d = []
+    for grp in ("sim", "net", "queue", "past"):
+        if a[grp] != b[grp]:
+            for i_, (x, y) in enumerate(zip(a[grp], b[grp])):
+                if x != y:
+                    d.append(f"{tag}: {grp}[{i_}]: {str(x)[:120]} vs {str(y)[:120]}")
+                    break
+            else:
+                d.append(f"{tag}: {grp}: {len(a[grp])} vs {len(b[grp])} entries")
+    for grp in ("evse", "ev"):
+        if list(a[grp].keys()) != list(b[grp].keys()) and sorted(a[grp].keys()) != sorted(b[grp].keys()):
+            d.append(f"{tag}: {grp} keys {list(a[grp].keys())[:5]} vs {list(b[grp].keys())[:5]}")
+            continue
+        for k_ in a[grp]:
+            if a[grp][k_] != b[grp][k_]:
+                d.append(f"{tag}: {grp} {k_[:30]!r}: {a[grp][k_]} vs {b[grp][k_]}")
+                break
+    return d[:4]
+
+
 _JS_TEXT = {}          # case hash -> the `to_json()` document of run c (text layer tie; kept out of the observations)
 
 
@@ -1291,6 +1378,7 @@ def _run_json(scn, k, store_hist, net_cls, want_store, reattach="fresh", twice=F
             return out
         w = _quiet()
         try:
+            live1 = _live_state(sim, amap)
             js = sim.to_json()
             sim2 = Simulator.from_json(js)
             algo2 = _fresh_algo(scn) if reattach == "fresh" else ctx["scheduler"]
@@ -1319,6 +1407,8 @@ def _run_json(scn, k, store_hist, net_cls, want_store, reattach="fresh", twice=F
         out["rejson"] = _bijection(j1, json.loads(js2)) or ["second save/load: " + x for x in _bijection(
             j1, json.loads(js3), skip={("Simulator", "scheduler")})]     # only the class NAME of the scheduler travels; sim3 has none re-attached
         out["types"] = _type_diffs(sim2) or ["after a second save/load: " + x for x in _type_diffs(sim3)]
+        out["values"] = (_state_diffs(live1, _live_state(sim2, amap), "crashed vs loaded simulator")
+                         or _state_diffs(live1, _live_state(sim3, amap), "crashed vs twice-loaded simulator"))
         out["n_objects"] = len(j1["context_dict"])
         out["pending_kinds"] = sorted({e.event_type for _, e in sim2.event_queue.queue})
         out["same_object"] = sim2 is sim or sim3 is sim2
@@ -1880,6 +1970,8 @@ def oracle(case, obs):
                 fails.append({"kind": "rejson_differs", "detail": f"{tag}, crash at {k}: to_json of the loaded simulator: " + "; ".join(r["rejson"][:3])})
             if r.get("types"):
                 fails.append({"kind": "type_changed", "detail": f"{tag}, crash at {k}: " + "; ".join(r["types"][:3])})
+            if r.get("values"):
+                fails.append({"kind": "value_changed", "detail": f"{tag}, crash at {k}: " + "; ".join(r["values"][:3])})
             if r["same_object"]:
                 fails.append({"kind": "sharing_lost", "detail": "from_json returned the original object"})
     if _is_real(scn):
@@ -1899,6 +1991,8 @@ def oracle(case, obs):
                 fails.append({"kind": "sharing_lost", "detail": "; ".join((c2["identity"] + c2["rejson"])[:3])})
             if c2["fired"] and c2.get("types"):
                 fails.append({"kind": "type_changed", "detail": "; ".join(c2["types"][:3])})
+            if c2["fired"] and c2.get("values"):
+                fails.append({"kind": "value_changed", "detail": "; ".join(c2["values"][:3])})
         c3 = obs.get("c3")
         if c3 is not None:
             if not (c3["fired"] and c3["fired2"]):
